@@ -20,3 +20,12 @@ Definition C01_ckpt_backed_statement : Prop :=
 Theorem C01_ckpt_backed : C01_ckpt_backed_statement.
 Proof. exact ckpt_always_backed. Qed.
 Print Assumptions C01_ckpt_backed.
+
+(* every transaction that survives in the log of a crash image lies above the checkpoint logged
+   before it, so recovery replays it instead of skipping it (a checkpoint never covers its own or
+   a later transaction) *)
+Definition C01_logged_replayed_statement : Prop :=
+  forall tr k m, protocol_ok tr = true -> replayable (image m (run (firstn k tr))) = true.
+Theorem C01_logged_replayed : C01_logged_replayed_statement.
+Proof. exact logged_are_replayed. Qed.
+Print Assumptions C01_logged_replayed.
